@@ -435,6 +435,16 @@ class Interp:
             env = {}
             keys = set(a.env) | set(b.env)
             for k in keys:
+                if k == "__axioms__":
+                    env[k] = a.env.get(k, frozenset()) & b.env.get(k, frozenset())
+                    continue
+                if k.startswith("__") and k in a.env and k in b.env and a.env[k] is b.env[k]:
+                    env[k] = a.env[k]
+                    continue
+                if k.startswith("__"):
+                    if k in base.env:
+                        env[k] = base.env[k]
+                    continue
                 if k in a.env and k in b.env:
                     va, vb = a.env[k], b.env[k]
                     env[k] = va if va is vb else merge(c, va, vb)
@@ -561,8 +571,12 @@ class Interp:
             live = new_live
         return done + [Outcome("normal", s) for s in live]
 
-    def _glist_for(self, node, st, gl):
+    def _glist_for(self, node, st, gl, no_cut=False):
         """for x in <guarded list>: run the body under each guard and merge"""
+        if not no_cut:
+            spec = self.ctx.registry.loop_spec(self.ctx, node, st)
+            if spec is not None and spec.spec.cut:
+                return spec.run_cut(self, node, st, gl)
         live = [st]
         done = []
         for g, item in gl.items:
